@@ -440,25 +440,32 @@ def gen_world(src, profile):
     if profile.get("class_dnc") and src.chance(1, 8):
         # class-level do_not_copy=True: "effectively making all mutations in-place" - also the ones that then fail half-way
         mdesc["opts"]["do_not_copy"] = True
-    if profile.get("cached_props") and src.chance(1, 2):
-        cands = [a for a in m_attrs if a["default"][0] in ("lit", "attr_factory") and not any(k in a for k in ("init", "repr", "compare", "invalidated_by", "do_not_copy"))
-                 and a["type"][0] in ("int", "list", "dict", "set")]
+    if profile.get("cached_props") and src.chance(2, 3):
+        cands = [a for a in m_attrs if a["default"][0] not in ("none", "attr_none") and not any(k in a for k in ("invalidated_by", "do_not_copy")) and a.get("init") is not False
+                 and a["type"][0] in ("int", "list", "dict", "set") and a["name"] not in mdesc.get("redefaults", {})]
+        def _strip(a):
+            for k in ("repr", "compare"):
+                a.pop(k, None)  # (a property takes the place of the Attr(...) declaration that carried these flags)
+
         views = [a for a in cands if a["type"][0] in ("list", "dict", "set")]
-        if views and src.chance(1, 3):
+        if views and src.chance(1, 2):
             # a managed collection attribute that is a VIEW: its (non-caching) getter hands out a collection the instance itself
             # owns (kept under an unmanaged name, empty at first)
             v = src.pick(views)
             v["default"] = ["view_prop", v["type"][0]]
+            _strip(v)
             cands = [a for a in cands if a is not v]
         if cands:
             a = src.pick(cands)
             a["default"] = ["cached_prop", a["default"][1]]
+            _strip(a)
             rest = [b for b in cands if b is not a]
             if rest and src.chance(2, 3):
                 # a second managed attribute derived WITHOUT caching from the cached one: reading it (as every update / transform /
                 # element helper must) evaluates the caching getter too
                 b = src.pick(rest)
                 b["default"] = ["derived_prop", b["default"][1], a["name"]]
+                _strip(b)
     for c in world["classes"]:
         d = [a["name"] for a in c["attrs"] if a.get("do_not_copy") == "decorator"]
         if d:
